@@ -756,12 +756,15 @@ impl SerializableValue {
 
                 // For now, parse the body string back to AST
                 // In a real implementation, we'd want to serialize/deserialize the AST properly
-                let body_ast = crate::expressions::pairs_to_expr(
-                    crate::parser::get_pairs(&s_lambda.body)?
-                        .next()
-                        .unwrap()
-                        .into_inner(),
-                )?;
+                let body_expr = crate::parser::get_pairs(&s_lambda.body)?
+                    .next()
+                    .filter(|pair| pair.as_rule() == crate::parser::Rule::statement)
+                    .and_then(|statement| statement.into_inner().next())
+                    .filter(|pair| pair.as_rule() == crate::parser::Rule::expression)
+                    .ok_or_else(|| {
+                        anyhow!("function body is not an expression: {}", s_lambda.body)
+                    })?;
+                let body_ast = crate::expressions::pairs_to_expr(body_expr.into_inner())?;
 
                 let lambda = LambdaDef {
                     name: s_lambda.name.clone(),
